@@ -57,6 +57,9 @@ class C17(Prop):
         thorough = tier == "thorough"
         core.tie_run(stats, "dec", ["gen-mal", seed, 400000 if thorough else 30000], self.nontrivial, cmp)
         core.tie_run(stats, "net", ["gen", seed + 90, 300 if thorough else 36], lambda c, t: "refused" in t or "disconnected" in t, cmp)
+        # a peer that fills the node's descriptor table with connections: accept() keeps failing; the other
+        # connections of the node must still be served and the node must still stop
+        core.tie_run(stats, "net", ["gen-emfile"], lambda c, t: True, cmp)
 
 
 class C19(Prop):
@@ -147,6 +150,8 @@ class C01(Prop):
         core.tie_run(stats, "stream", ["gen-sizes", tier, "W"], lambda c, t: True, cmp)
         # two senders on one endpoint (the send lock): the per-connection sequence is an interleaving of whole messages
         core.tie_run(stats, "stream", ["gen-mt", seed + 3, 2, "FW"], lambda c, t: True, cmp)
+        # a keepalive configuration the OS rejects, on either side: the connection works all the same
+        core.tie_run(stats, "stream", ["gen-badka", "F"], lambda c, t: True, cmp)
         # through the node layer: messages that arrive before the listener call keep their order
         core.tie_run(stats, "node", ["gen-early", seed + 9, 2], lambda c, t: True, cmp)
         if th:
@@ -182,6 +187,7 @@ class C11(Prop):
         # a multi-MiB send() to a reader that stalls for seconds (the send loop must neither give up nor lose
         # its place), with small buffers travelling the other way meanwhile
         core.tie_run(stats, "stream", ["gen-duplex", "T", 8000 if th else 3000], lambda c, t: True, cmp)
+        core.tie_run(stats, "stream", ["gen-badka", "T"], lambda c, t: True, cmp)
         if th:
             core.tie_run(stats, "stream", ["gen-e2e", seed + 5, 40, "T", "big"], self.nontrivial, cmp)
 
@@ -211,6 +217,9 @@ class C10(Prop):
     def tie(self, stats, tier, seed):
         cmp = getattr(self, "compare", True)
         core.tie_run(stats, "stream", ["gen-mt", seed, 36 if tier == "thorough" else 9, "FWU"], self.nontrivial, cmp)
+        # a sender stuck for seconds in the middle of a frame (the peer reads nothing): the send loop must not
+        # give up half-way, whatever the other threads and the other direction do meanwhile
+        core.tie_run(stats, "stream", ["gen-duplex", "F", 8000 if tier == "thorough" else 3000], lambda c, t: True, cmp)
 
     def search(self, tier, seed):
         st = core.Stats()
@@ -531,6 +540,8 @@ class C08(Prop):
         core.tie_run(stats, "vq", ["gen-clones", 300000 if th else 100000], self.nontrivial, cmp)
         core.tie_run(stats, "vq", ["gen-collide", 8, 10000], self.nontrivial, cmp)
         core.tie_run(stats, "vq", ["gen-backlog"], self.nontrivial, cmp)
+        # cancels issued inside the last millisecond before the deadline (and of sub-millisecond timers)
+        core.tie_run(stats, "vq", ["gen-latecancel", 1200 if th else 240], self.nontrivial, cmp)
 
     def search(self, tier, seed):
         st = core.Stats()
@@ -562,6 +573,8 @@ class C16(Prop):
         # the expiry wake-up and a cancel command ready together: None only after the whole timeout
         core.tie_run(stats, "vq", ["gen-expirerace", 4000 if tier == "thorough" else 1000], self.nontrivial, cmp)
         core.tie_run(stats, "vq", ["gen-deadlinerace", 2000 if tier == "thorough" else 300], self.nontrivial, cmp)
+        # timed sends through different clones that fall on the same instant: each must wake the receiver
+        core.tie_run(stats, "vq", ["gen-collide", 8, 40000 if tier == "thorough" else 10000], self.nontrivial, cmp)
 
     def search(self, tier, seed):
         st = core.Stats()
